@@ -271,12 +271,14 @@ type PosWriter struct {
 	Calls    int
 	FailCall int
 	Short    bool
-	Hit      bool
+	// Transient: only call FailCall fails (nothing is taken); later calls succeed again.
+	Transient bool
+	Hit       bool
 }
 
 func (w *PosWriter) Write(p []byte) (int, error) {
 	w.Calls++
-	if w.Hit {
+	if w.Hit && !w.Transient {
 		return 0, ErrInjected
 	}
 	if w.FailCall > 0 && w.Calls == w.FailCall {
